@@ -67,6 +67,20 @@ theorem slice_read_bit (bs : List Byte) (pos : Nat) :
   · have : pos ≥ bs.length * 8 := by omega
     simp [h, this]
 
+/-- slice writer and slice reader agree on where bit `pos` lives: whatever one `write_bit`
+    stored at any in-range position is what `read_bit` returns from there, both cursors end at
+    `pos + 1`, and a read anywhere else sees the old bit. -/
+theorem slice_write_then_read_bit (bs : List Byte) (pos : Nat) (x : Bool)
+    (h : pos < bs.length * 8) :
+    ∃ bs', sliceWriteBit bs pos x = ok (bs', pos + 1) ∧ bs'.length = bs.length ∧
+      sliceReadBit bs' pos = ok (x, pos + 1) ∧
+      ∀ j, j ≠ pos → j < bs.length * 8 → sliceReadBit bs' j = ok (getBit bs j, j + 1) := by
+  obtain ⟨hw, hg⟩ := (slice_write_bit bs pos x).1 h
+  refine ⟨setBit bs pos x, hw, length_setBit bs pos x, ?_, ?_⟩
+  · rw [slice_read_bit, length_setBit, if_pos h, hg pos, if_pos rfl]
+  · intro j hj hjl
+    rw [slice_read_bit, length_setBit, if_pos hjl, hg j, if_neg hj]
+
 /-- multi-bit write through the slice writer: cursor advances by exactly `len` -/
 theorem slice_write_bits (bs : List Byte) (pos : Nat) (src : List Byte) (off len : Nat)
     (hd : pos + len ≤ bs.length * 8) (hs : off + len ≤ src.length * 8) :
@@ -267,6 +281,10 @@ example : bitStringCopyBulked [0#8, 0#8, 0#8, 0#8] 0 [0xff#8, 0xff#8, 0xff#8, 0x
 example : (WOp.bits [0xAB#8, 0xCD#8] 3 9).Valid := by simp [WOp.Valid]
 example : (BitsView.mk [0xAA#8, 0xBB#8] 0 12).Inv := by simp [BitsView.Inv]
 example : (BitBuffer.mk [0xff#8, 0xf0#8] 12 0).patchBit 9 false = ok (BitBuffer.mk [0xff#8, 0xb0#8] 12 0) := by decide
+-- `slice_write_then_read_bit`: bit 9 of a two-byte slice
+example : (9 : Nat) < [0xff#8, 0xf0#8].length * 8 ∧
+    sliceWriteBit [0xff#8, 0xf0#8] 9 false = ok ([0xff#8, 0xb0#8], 10) ∧
+    sliceReadBit [0xff#8, 0xb0#8] 9 = ok (false, 10) := by decide
 -- `placed_write`: a 12-bit buffer, 5 bits from source offset 2 placed at position 3
 example : (BitBuffer.mk [0xff#8, 0xf0#8] 12 0).atPos 3 (fun b => b.writeBitsWithOffsetLen [0x00#8] 2 5)
     = ok (BitBuffer.mk [0xe0#8, 0xf0#8] 12 0) := by decide
